@@ -174,21 +174,37 @@ def static_part(ck):
         info = fns.get(f, {})
         sig = "lock:%s:%s" % (code_of(why), f)
         where = "%s:%s" % (info.get("file"), info.get("line"))
-        ck.fail("obligation", sig, "lock discipline violated in %s (%s): %s" % (f, where, why),
+        wit = g.get("witness", {}).get(f)
+        ck.fail("input" if wit else "obligation", sig, "lock discipline violated in %s (%s): %s" % (f, where, why),
                 {"function": f, "where": where, "reason": why, "theorem": "C17_current (check_except known program = true)",
-                 "witness": g.get("witness", {}).get(f)})
+                 "witness_path": wit, "witness_theorem": ("coq/gen/LockRefuted.v: C17_%s_refuted" % gen_locks.ident(f)[2:]) if wit else None,
+                 "rerun": "cd /verif && bin/check C17   (static part: translate/gen_locks.py + coq/Properties/C17.v)"})
         if f not in known:
             explained = True
     if explained:
         # the failing build of C17_current is explained row by row above
         ck.failures = [x for x in ck.failures if x["signature"] not in ("coq:C17_current",)]
+    # path witnesses: every rejected function with a witness has a theorem `exists path, exec ... /\ trace violates the discipline`
+    wits = g.get("witness", {})
+    if wits:
+        ok2, out2 = core.coq_make(["gen/LockRefuted.vo"])
+        names = core.theorems_of(core.COQ / "gen" / "LockRefuted.v")
+        pa = None
+        if ok2:
+            pa, _ = core.print_assumptions("gen.LockRefuted", names)
+        for n in names:
+            good = bool(ok2 and pa and pa.get(n) == "closed")
+            ck.obligation(n, good, "witness path checked by vm_compute through PathRun.run_sound; Closed under the global context" if good else "witness did not check: " + out2[-300:])
+            if not good:
+                ck.fail("obligation", "machinery:witness:" + n, "path witness %s does not check in Coq (Python walker and PathRun.run disagree?)" % n, {"theorem": n, "coq_output_tail": out2[-1500:]})
+    ck.extra["refuted_witnesses"] = sorted(wits)
     # stale known rows (the defect was repaired but the finding is still listed) are only noted
     stale = [k for k in known if k not in [f for f, _ in rows]]
     if stale:
         ck.notes.append("known rows that now pass the checker (finding can be closed): %s" % stale)
     # observer callbacks (raw message handlers) under locks: assumption of the model, reported as a finding of its own
     obs = {}
-    for q, kind, A in g["mirror"].observed:
+    for q, kind, A in g["mirror"].observed_final:
         obs.setdefault(kind, set()).update(l[0] for l in A)
     for kind, held in sorted(obs.items()):
         ck.fail("obligation", "lock:observer-under-lock:" + kind,
@@ -212,14 +228,14 @@ def gen_scenarios(rng, quick):
     for mode in (0, 1, 2):
         for conns, apps in ((1, 1), (2, 2), (3, 4)):
             add("srv", seed=rng.below(1 << 30), mode=mode, conns=conns, apps=apps, rounds=25 if quick else 80, reent=0,
-                raw=rng.below(2), stop=rng.below(2))
+                raw=rng.below(2), stop=rng.below(3))
     for apps in (1, 2, 4):
         add("cli", seed=rng.below(1 << 30), apps=apps, rounds=25 if quick else 80, reent=0, raw=rng.below(2), close=rng.below(2))
-    extra = 4 if quick else 40
+    extra = 16 if quick else 400
     for _ in range(extra):
         if rng.chance(2, 3):
             add("srv", seed=rng.below(1 << 30), mode=rng.below(3), conns=rng.range(1, 4), apps=rng.range(1, 4), rounds=rng.range(10, 40 if quick else 120),
-                reent=0, raw=rng.below(2), stop=rng.below(2))
+                reent=0, raw=rng.below(2), stop=rng.below(3))
         else:
             add("cli", seed=rng.below(1 << 30), apps=rng.range(1, 4), rounds=rng.range(10, 40 if quick else 120), reent=0, raw=rng.below(2), close=rng.below(2))
     plain = list(sc)
@@ -280,6 +296,11 @@ def tsan_races(err):
 
 def dynamic_part(ck, rng, quick):
     plain, reent = gen_scenarios(rng, quick)
+    corpus = core.VERIF / "corpus" / "C17" / "scenarios.txt"
+    if corpus.exists():
+        cl = [l.strip() for l in corpus.read_text().splitlines() if l.strip() and not l.startswith("#")]
+        plain = [("c%03d" % i, l) for i, l in enumerate(cl) if "reent=1" not in l] + plain
+        reent = [("r%03d" % i, l) for i, l in enumerate(cl) if "reent=1" in l] + reent
     env_a = dict(os.environ, ASAN_OPTIONS="detect_leaks=0:abort_on_error=0", UBSAN_OPTIONS="print_stacktrace=1:halt_on_error=1")
     env_t = dict(os.environ, TSAN_OPTIONS="halt_on_error=0:report_signal_unsafe=0:history_size=4:second_deadlock_stack=1")
     results = []
@@ -290,7 +311,7 @@ def dynamic_part(ck, rng, quick):
         ck.fail("obligation", "machinery:build-asan", "h_thr (ASan) does not build: %s" % str(e)[-400:], {"theorem": "harness"})
     try:
         exe_t = build_thr("tsan")
-        tsel = plain if not quick else plain[:12] + plain[-2:]
+        tsel = plain
         results += [("tsan",) + r for r in run_many(exe_t, tsel, env_t, jobs=6)]
     except Exception as e:
         ck.fail("obligation", "machinery:build-tsan", "h_thr (TSan) does not build: %s" % str(e)[-400:], {"theorem": "harness"})
